@@ -280,6 +280,38 @@ def winCModel (cap nR k : Nat) : Option (Nat × Nat × Nat) :=
     let items := s4.log.countP fun e => match e with | .recvRet _ (some _) => true | _ => false
     (ret, s4.head - s4.tail, items)
 
+/-- model prediction for `race cap perm`: all senders reach `sLoop 0`, then run to completion in the order `perm` -/
+def raceModel (cap : Nat) (perm : List Nat) : Option String :=
+  (init cap 0).map fun s0 =>
+    let n := perm.length
+    let s1 := (List.range n).foldl (fun s i =>
+      let t := i + 1
+      match act s (.call t (.send (100 + i))) with
+      | none => s
+      | some a => (stepT a t).getD a) s0
+    let (s2, oks) := perm.foldl (fun (acc : State × String) i =>
+      let (s', fin) := runThread 400 acc.1 (i + 1)
+      let r := match s'.log.getLast? with
+        | some (.sendRet _ _ true) => "T"
+        | _ => "F"
+      (s', acc.2 ++ (if fin then r else "B"))) (s1, "")
+    -- drain with cancelled contexts
+    let rec drain (fuel : Nat) (s : State) (t : Tid) (acc : List Nat) : List Nat :=
+      match fuel with
+      | 0 => acc
+      | fuel + 1 =>
+        let s := (act s (.cancel t)).getD s
+        match act s (.call t .recv) with
+        | none => acc
+        | some a =>
+          let s' := (runThread 400 a t).1
+          match s'.log.getLast? with
+          | some (.recvRet _ (some v)) => drain fuel s' (t + 1) (acc ++ [v])
+          | _ => acc
+    let got := drain (n + 1) s2 500 []
+    let vs := if got.isEmpty then "-" else ",".intercalate (got.map toString)
+    s!"sends={oks} order={vs}"
+
 end Win
 
 section AWin
@@ -418,6 +450,19 @@ def step (c impl : String) : String :=
         | _, _, _, _ => modelDiff "ret=.. size=.. items=.."
       | _ => if impl.startsWith "TIMEOUT" then "SKIP " ++ impl else modelDiff "ret=.. size=.. items=.."
     | _, _, _ => "SKIP bad-case"
+  | ["race", cap, perm] =>
+    match natOf cap, (perm.splitOn ",").mapM natOf with
+    | some cap, some perm =>
+      match raceModel cap perm with
+      | none => "SKIP bad-case"
+      | some expected =>
+        let want := ",".intercalate (perm.map fun i => toString (100 + i))
+        if !impl.startsWith "sends=" then (if impl.startsWith "TIMEOUT" then specViol s!"mpmc race: {impl}" else modelDiff expected)
+        else if impl != s!"sends={String.ofList (perm.map fun _ => 'T')} order={want}" then
+          specViol s!"mpmc: senders that raced for the same position and completed in the order {perm} left the queue as: {impl}"
+        else if impl != expected then modelDiff expected
+        else ok "race-same-position" true
+    | _, _ => "SKIP bad-case"
   | ["awin", k, cl] =>
     match natOf k, natOf cl with
     | some k, some cl =>
